@@ -39,7 +39,7 @@ class NativeSource:
         cls = self.cls(clsqual)
         return cls[self.prims[name]]
 
-    def intlist(self, name):
+    def intlist(self, name, length=None):
         return list(self.prims[name])
 
     def const(self, name):
@@ -107,12 +107,15 @@ class EngineSource:
         self.decl[name] = ("enum", v)
         return v
 
-    def intlist(self, name):
+    def intlist(self, name, length=None):
         from .values import SList
         if self.prims is not None:
             return list(self.prims[name])
-        ln = z3.Int(name + "_len")
-        self.e.assume(ln >= 0)
+        if length is not None:
+            ln = length
+        else:
+            ln = z3.Int(name + "_len")
+            self.e.assume(ln >= 0)
         arr = z3.Array(name, z3.IntSort(), z3.IntSort())
         v = SList((arr,), ln)
         self.decl[name] = ("intlist", (arr, ln))
@@ -161,6 +164,20 @@ class EngineSource:
 
     def none(self):
         return None
+
+    def nested_fn(self, outer_qual, name, closure_locals):
+        """A function defined inside ``outer_qual`` with the given closure variables (engine only)."""
+        import ast
+        from .values import FuncVal
+        from .repo import FuncInfo
+        from .symex import Frame
+        outer = self.e.repo.find(outer_qual)
+        node = [n for n in ast.walk(outer.node) if isinstance(n, ast.FunctionDef) and n.name == name
+                and n is not outer.node][0]
+        fi = FuncInfo(node, outer.module, cls=None, outer=outer)
+        fv = FuncVal(fi, closure=Frame(outer, outer.module, dict(closure_locals)))
+        fv.closure.locals[name] = fv  # the function can refer to itself through the enclosing scope
+        return fv
 
     # ---- model -> primitives
     def prims_from_model(self, model):
